@@ -177,6 +177,127 @@ def mon_C06(md_lib, cfg, ops, impl, stats, r=None):
             prev_snap = s
     return out
 
+
+# ---- C01 / C07 -----------------------------------------------------------------------------------------
+def _matches(md_parents, trig, ety):
+    """does a trigger (["ev", t] / "any") match event type ety: t is ety or one of its bases"""
+    if trig == "any":
+        return True
+    if not isinstance(trig, list) or trig[0] != "ev":
+        return False
+    e, n = ety, 0
+    while e is not None and n < 64:
+        if e == trig[1]:
+            return True
+        e = md_parents[e] if md_parents and 0 <= e < len(md_parents) else None
+        n += 1
+    return False
+
+def _defers_below(m, path, snap, ety):
+    """does an active state of machine m (at path) or of an active submachine below it list ety as deferred"""
+    act = snap.get(path)
+    if act is None:
+        return False
+    for s in act:
+        if not (0 <= s < len(m["states"])):
+            continue
+        st = m["states"][s]
+        if ety in st["defers"] and not any(rr["trig"] == "any" or rr["trig"] == ["ev", ety] for rr in st["sirows"]) \
+                and not any(rr["src"] == s and (rr["trig"] == "any" or rr["trig"] == ["ev", ety]) for rr in m["rows"]):
+            return True
+        if st["sub"] is not None and _defers_below(st["sub"], path + "." + str(s), snap, ety):
+            return True
+    return False
+
+def mon_C01(md_lib, cfg, ops, impl, stats, r=None):
+    """selection rules read off the implementation's own trace (no model, no regenerated table involved), for
+    process_event calls whose behaviours only observe:
+      A  within one cell (machine, source state) guards are evaluated last-declared-first, each once, none after one held;
+      B  a state's own internal table before the table rows of that state;
+      C  once a transition was taken or the event was deferred inside an active submachine, no row of the enclosing
+         machine for that submachine state is evaluated or taken."""
+    out = []
+    rows = rows_by_id(md_lib)
+    prev_snap = None
+    for k, block in enumerate(impl):
+        op = ops[k] if k < len(ops) else None
+        if op and op[0] == "process" and not op[4] and prev_snap is not None and "ESC" not in block and not any(l.startswith("BAD") for l in block):
+            ety, pay = op[1], op[2]
+            items = [x for x in (parse(l) for l in block) if x and (x["ety"], x["pay"]) == (ety, pay)]
+            gs = [x for x in items if x["tag"] in ("G0", "G1") and x["id"] in rows]
+            ids = [x["id"] for x in gs]
+            if len(ids) != len(set(ids)):
+                # a guard evaluated twice for one occurrence in one call
+                dup = [i for i in set(ids) if ids.count(i) > 1]
+                # legitimate only if the occurrence was dispatched again (deferred and re-offered in the same call)
+                res = result_of(block)
+                if not (res is not None and res & 4) and not has_deferral(md_lib):
+                    out.append("op %d: guard(s) %s evaluated more than once for one occurrence of e%d" % (k, sorted(dup), ety))
+            else:
+                # A, B: order within a cell
+                cells = collections.OrderedDict()
+                for x in gs:
+                    path, m, row = rows[x["id"]]
+                    cells.setdefault((path, row["src"]), []).append(x)
+                for (path, src), xs in cells.items():
+                    m = machine_at(md_lib, path)
+                    st = m["states"][src] if 0 <= src < len(m["states"]) else None
+                    cand = []
+                    if st is not None and st["sub"] is None:
+                        cand += [rr["id"] for rr in reversed(st["sirows"])]
+                    cand += [rr["id"] for rr in reversed(m["rows"]) if rr["src"] == src]
+                    own = [x for x in xs if x["id"] in cand]
+                    pos = [cand.index(x["id"]) for x in own]
+                    stats.nontrivial.add(("C01", "cell", path, src, tuple(x["tag"] for x in own)))
+                    if pos != sorted(pos):
+                        out.append("op %d: guards of cell (%s, state %d) evaluated in order %s, candidates in priority order are %s"
+                                   % (k, path, src, [x["id"] for x in own], cand))
+                    for i, x in enumerate(own[:-1]):
+                        if x["tag"] == "G1":
+                            out.append("op %d: cell (%s, state %d): guard %d held, yet guard %d was evaluated after it"
+                                       % (k, path, src, x["id"], own[i + 1]["id"]))
+                            break
+                # C: inner consumption blocks the enclosing rows
+                for path, m in msmgen.walk(md_lib):
+                    pstr_ = msmgen.pstr(path)
+                    act = prev_snap.get(pstr_)
+                    if act is None:
+                        continue
+                    for s in act:
+                        if not (0 <= s < len(m["states"])) or m["states"][s]["sub"] is None:
+                            continue
+                        sub_path = pstr_ + "." + str(s)
+                        if sub_path not in prev_snap:
+                            continue
+                        def into_exit(x):
+                            _, mi, rw = rows[x["id"]]
+                            t = rw["tgt"]
+                            return isinstance(t, list) and t[0] == "state" and 0 <= t[1] < len(mi["states"]) and \
+                                isinstance(mi["states"][t[1]]["kind"], list) and mi["states"][t[1]]["kind"][0] == "exitpt"
+                        took = [x for x in items if x["tag"] in ("G1", "A") and (x["path"] == sub_path or x["path"].startswith(sub_path + "."))
+                                and x["id"] in rows]
+                        if any(into_exit(x) for x in took):
+                            continue
+                        res = result_of(block)
+                        # the submachine is offered the event iff its (recursive) transition table mentions it
+                        offered = any(rr["trig"] == ["ev", ety] for _, mm in msmgen.walk(m["states"][s]["sub"]) for rr in mm["rows"])
+                        deferred = (not cfg.startswith("mp11")) and offered and \
+                            _defers_below(m["states"][s]["sub"], sub_path, prev_snap, ety)
+                        if not took and not deferred:
+                            continue
+                        outer = [x for x in items if x["tag"] in ("G0", "G1", "A") and x["path"] == pstr_ and x["id"] in rows
+                                 and rows[x["id"]][2]["src"] == s and rows[x["id"]][2].get("exitpt") is None
+                                 and rows[x["id"]][2] in m["rows"]]
+                        stats.nontrivial.add(("C01", "inner-first", pstr_, s, bool(took), bool(deferred)))
+                        if outer:
+                            out.append("op %d: e%d was %s inside the submachine under state %d of %s, yet the enclosing machine's row %d for that state was %s"
+                                       % (k, ety, "taken" if took else "deferred", s, pstr_, outer[0]["id"],
+                                          "taken" if any(x["tag"] == "A" for x in outer) else "evaluated"))
+        sn = snaps_of(block)
+        if sn:
+            prev_snap = sn
+    return out
+
 # ---- C03 ---------------------------------------------------------------------------------------------
 def mon_C03(md_lib, cfg, ops, impl, stats, r=None):
     out = []
